@@ -105,6 +105,11 @@ func (s *Shape) LawFile(pkg, name string) string {
 	}
 	var b strings.Builder
 	fmt.Fprintf(&b, "package %s\n\n%s\n", pkg, lawImports)
+	if m.Json {
+		// README 3.2: @fp.Json gives the struct MarshalJSON and UnmarshalJSON (generated or, if the
+		// user wrote one, the user's); their behaviour is C15's subject, their presence is checked here
+		fmt.Fprintf(&b, "var _ interface{ MarshalJSON() ([]byte, error) } = %s{}\nvar _ interface{ UnmarshalJSON([]byte) error } = (*%s)(nil)\n\n", N, N)
+	}
 	fmt.Fprintf(&b, "func init() {\n\tregister(&spec{\n\t\tid: %q,\n\t\tname: %q,\n", s.ID, name)
 	// fields
 	b.WriteString("\t\tfields: []fieldSpec{\n")
